@@ -45,7 +45,7 @@ fn gen(r: &mut dyn FnMut() -> u64) -> (Vec<Node>, Vec<usize>) {
             if !nodes.iter().any(|n| n.path == cand) { name = Some(cand); break; }
         }
         let path = match name { Some(n) => n, None => continue };
-        nodes.push(Node { path, parent, stages: 1 + (r() % 3) as usize });
+        nodes.push(Node { path, parent, stages: if r() % 8 == 0 { 0 } else { 1 + (r() % 3) as usize } });
     }
     // creation order: a random linear extension of "parent before child" (creation order = order of `sim.node` calls)
     let mut order: Vec<usize> = vec![];
@@ -83,9 +83,11 @@ fn main() {
         // every 5th scenario: one module panics in one of its start-up stages; the panic is contained, every OTHER module must still
         // see its start-up stages in order and its at_sim_end exactly once (the faulty module itself is left out of the comparison)
         let faulty: Option<usize> = if rnd() % 5 == 0 { Some((rnd() % nodes.len() as u64) as usize) } else { None };
+        let faulty = faulty.filter(|f| nodes[*f].stages > 0);
         *PANIC_AT.lock().unwrap() = faulty.map(|f| (nodes[f].path.clone(), (rnd() % nodes[f].stages as u64) as usize));
         let fpath: Option<String> = faulty.map(|f| nodes[f].path.clone());
         let quitter: Option<usize> = if faulty.is_none() && rnd() % 6 == 0 { Some((rnd() % nodes.len() as u64) as usize) } else { None };
+        let quitter = quitter.filter(|q| nodes[*q].stages > 0);
         *SHUTDOWN_AT.lock().unwrap() = quitter.map(|q| (nodes[q].path.clone(), nodes[q].stages - 1));
         let mut sim = Sim::new(());
         for &i in order.iter() { sim.node(nodes[i].path.as_str(), Rec { path: nodes[i].path.clone(), stages: nodes[i].stages }); }
